@@ -78,6 +78,11 @@ static arena::Obj
 mk(MatJob &mj, int id, uint32_t len, uint32_t align = 1, uint32_t mis = 0)
 {
         arena::Obj o = arena::alloc(len, mj.spec.place[id], align, mis);
+        // objects start from a constant fill: bytes that the preparation code does not write (e.g. the unused round-key
+        // slots of an AES-128 schedule inside gcm_key_data) must not carry whatever the arena slot held before -
+        // the residue scanner would take such stale non-secret bytes for key material
+        if (o.p && len)
+                memset(o.p, 0xA5, len);
         mj.obj[id] = o;
         return o;
 }
